@@ -32,7 +32,9 @@ def _watch_progress():
                     box = children[i] if isinstance(i, int) and i < len(children) else None
                 if box is not None:
                     chain.append(type(box).__name__)
-                raise NoProgress('>'.join(chain[-3:]))
+                # the innermost box that is not a plain block, and what follows it
+                last = max([i for i, n in enumerate(chain) if n != 'BlockBox'] or [0])
+                raise NoProgress('>'.join(chain[last:][:4]))
         return result
     remake_page._verif_wrapped = True
     remake_page._seen = seen
